@@ -122,3 +122,39 @@ func HWrongKey() {
 		vr.Assert("c10.wrongkey.refused", err != nil)
 	}
 }
+
+// HKeyIsolation (C10): two cipher objects built one after the other from keys that share their first 16
+// octets each work with their own key.  Params: key index of the first, of the second.
+func HKeyIsolation() {
+	i, j := vr.Param(0), vr.Param(1)
+	prefix := vr.Bytes(16)
+	k1 := append(append([]byte{}, prefix...), vr.Bytes(vKeyLens[i]-16)...)
+	k2 := append(append([]byte{}, prefix...), vr.Bytes(vKeyLens[j]-16)...)
+	c1, err1 := StrToType(vNames[i]).NewCrypto(append([]byte{}, k1...))
+	c2, err2 := StrToType(vNames[j]).NewCrypto(append([]byte{}, k2...))
+	vr.Assert("c10.isolation.noerr", err1 == nil && err2 == nil)
+	if err1 != nil || err2 != nil {
+		return
+	}
+	p := vr.Bytes(5)
+	for n, c := range []interface{ Encrypt([]byte) ([]byte, error) }{c1, c2} {
+		ct, err := c.Encrypt(append([]byte{}, p...))
+		vr.Assert("c10.isolation.encrypt.noerr", err == nil && len(ct) == 32)
+		if err != nil || len(ct) != 32 {
+			return
+		}
+		key := k1
+		if n == 1 {
+			key = k2
+		}
+		vr.Assert("c10.isolation.own-key", vr.EqBytes(vr.AESDec(key, ct[16:32])[:5], vXor(p, ct[:5])))
+	}
+}
+
+func vXor(a, b []byte) []byte {
+	out := make([]byte, len(a))
+	for i := range a {
+		out[i] = a[i] ^ b[i]
+	}
+	return out
+}
